@@ -138,7 +138,7 @@ class Weaver:
     def __init__(self, repo, spec_path, config_override=None):
         self.repo = repo
         self.spec_path = spec_path
-        self.spec_lines = open(spec_path, encoding="utf-8").read().split("\n")
+        self.cur_path = spec_path
         self.sources = {}
         self.config = {}
         self.config_override = config_override or {}
@@ -154,7 +154,7 @@ class Weaver:
 
     # ---------------------------------------------------------------- util
     def emit_spec(self, text, lineno, fn="", label="", tags=()):
-        self.out.append(Line(text, "spec", os.path.relpath(self.spec_path, os.path.dirname(os.path.dirname(self.spec_path))), lineno, fn, label, tags))
+        self.out.append(Line(text, "spec", os.path.relpath(self.cur_path, os.path.dirname(os.path.dirname(self.spec_path))), lineno, fn, label, tags))
 
     def emit_src(self, text, alias, lineno, fn=""):
         self.out.append(Line(text, "src", self.sources[alias].rel, lineno, fn))
@@ -166,8 +166,19 @@ class Weaver:
 
     # ---------------------------------------------------------------- main
     def run(self):
+        self.addtags = ()
+        self.process(self.spec_path)
+        return self
+
+    def process(self, path):
+        prev_lines, prev_path = getattr(self, "spec_lines", None), self.cur_path
+        self.cur_path = path
+        try:
+            L = open(path, encoding="utf-8").read().split("\n")
+        except OSError as e:
+            raise AnchorLoss("spec include missing: %s" % e)
+        self.spec_lines = L
         i = 0
-        L = self.spec_lines
         while i < len(L):
             line = L[i]
             s = line.strip()
@@ -181,6 +192,16 @@ class Weaver:
             arg = parts[1] if len(parts) > 1 else ""
             if cmd == "unit":
                 self.unit = arg.strip()
+            elif cmd == "include":
+                parts2 = arg.split()
+                saved_add = self.addtags
+                for p2 in parts2[1:]:
+                    if p2.startswith("addtags="):
+                        self.addtags = tuple(self.addtags) + tuple(x for x in p2[8:].split(",") if x)
+                self.process(os.path.join(os.path.dirname(self.spec_path), parts2[0]))
+                self.addtags = saved_add
+                self.spec_lines = L
+                self.cur_path = path
             elif cmd == "source":
                 alias, rel = arg.split()
                 self.sources[alias] = Source(self.repo, rel)
@@ -224,7 +245,7 @@ class Weaver:
             else:
                 raise AnchorLoss("spec: unknown directive %r at line %d" % (cmd, i + 1))
             i += 1
-        return self
+        self.cur_path = prev_path
 
     # ---------------------------------------------------------------- ADTs
     def do_adt(self, kind, arg, lineno):
@@ -307,7 +328,7 @@ class Weaver:
             if p.startswith("ret="):
                 ret = p[4:]
             elif p.startswith("tags="):
-                tags = tuple(x for x in p[5:].split(",") if x)
+                tags = tuple(x for x in p[5:].split(",") if x) + tuple(t for t in self.addtags if t not in p[5:].split(","))
             elif p.startswith("attr="):
                 attrs.append(p[5:])
             elif p.startswith("rw="):
